@@ -732,6 +732,23 @@ impl<T: Payload> X<T> {
                 }
             }
         }
+        // C04 / C05: the allocation of an object is released iff its value is gone
+        // and no Weak to it remains
+        for o in 0..n as Oid {
+            let Some(bi) = arena::block_of(self.m.objs[o as usize].addr) else { continue };
+            let b = arena::blocks()[bi];
+            let gone = self.m.objs[o as usize].st != St::Alive;
+            let should_be_free = gone && weak[o as usize] + self.has_probe(o) == 0;
+            if b.freed && !should_be_free {
+                violate(
+                    if gone { View::Weak } else { View::Premature },
+                    &format!("the allocation of object {} (payload {}) was released although {}", o, T::NAME, if gone { "Weak handles to it remain" } else { "it is alive" }),
+                );
+            }
+            if !b.freed && should_be_free && !self.panicked {
+                violate_soft(View::Leak, &format!("object {} (payload {}) is gone and no Weak remains, but its allocation is still held", o, T::NAME));
+            }
+        }
         // identity: ptr_eq agrees with "same object" (both dangling counts as same)
         for a in 0..self.wroots.len().min(6) {
             for b in 0..a {
